@@ -281,6 +281,54 @@ fn semantic_compile(clauses: &[Clause]) -> Option<(String, String)> {
     None
 }
 
+/// (d) long-lived semantic builders: every CNF of the chunk with `nv` variables compiled in one
+/// builder per order (top-down) and per vtree (SDD), first in the given sequence and then again
+/// in reverse, so that every function is requested from a table that already holds it and many
+/// others; returns (key, text, cnf) of the first wrong result
+fn semantic_history(cnfs: &[Vec<Clause>], nv: usize, compiles: &mut u64) -> Option<(String, String, Vec<Clause>)> {
+    let mine: Vec<(&Vec<Clause>, TT)> = cnfs.iter().filter(|c| num_vars(c) == nv).map(|c| (c, tt::of_cnf(c, nv))).collect();
+    if mine.is_empty() || nv == 0 {
+        return None;
+    }
+    let mut seq: Vec<usize> = (0..mine.len()).collect();
+    seq.extend((0..mine.len()).rev());
+    for order in permutations(nv) {
+        rsdd::verif::set_table_capacity(4);
+        let b = SemanticDecisionNNFBuilder::<{ primes::U64_LARGEST }>::new(order_of(&order));
+        rsdd::verif::set_table_capacity(0);
+        for (step, &i) in seq.iter().enumerate() {
+            let (c, f) = (mine[i].0, mine[i].1);
+            *compiles += 1;
+            match guarded(|| b.compile_cnf_topdown(&to_cnf(c))) {
+                Ok(r) => {
+                    if bdd_tt(r, nv) != f {
+                        return Some(("semantic-topdown-history".into(), format!("order {:?}, compilation {} of a long-lived builder: models {:#x}, the CNF {:#x}", order, step + 1, bdd_tt(r, nv), f), c.clone()));
+                    }
+                }
+                Err(p) => return Some(("semantic-topdown-panic".into(), format!("order {:?}, compilation {}: {}", order, step + 1, p), c.clone())),
+            }
+        }
+    }
+    for vt in all_vtrees(nv) {
+        rsdd::verif::set_table_capacity(4);
+        let b = SemanticSddBuilder::<{ primes::U64_LARGEST }>::new(vt.to_rsdd());
+        rsdd::verif::set_table_capacity(0);
+        for (step, &i) in seq.iter().enumerate() {
+            let (c, f) = (mine[i].0, mine[i].1);
+            *compiles += 1;
+            match guarded(|| b.compile_cnf(&to_cnf(c))) {
+                Ok(r) => {
+                    if sdd_tt(r, nv) != f {
+                        return Some(("semantic-sdd-history".into(), format!("vtree {}, compilation {} of a long-lived builder: models {:#x}, the CNF {:#x}", vt.show(), step + 1, sdd_tt(r, nv), f), c.clone()));
+                    }
+                }
+                Err(p) => return Some(("semantic-sdd-compile-panic".into(), format!("vtree {}, compilation {}: {}", vt.show(), step + 1, p), c.clone())),
+            }
+        }
+    }
+    None
+}
+
 pub fn run(ctx: &Ctx) -> Report {
     let mut rep = Report::new(
         "(a) every function of n variables (n <= 3; 4 in thorough) as BDD in every order (built three ways: Shannon ite, minterms, CNF compilation), SDD in every vtree (two ways), top-down diagram in every order, for the exported 32- and 64-bit primes: semantic_hash and cached_semantic_hash (twice) equal the defining sum computed with independent modular arithmetic from the shipped weight map, and the negation hashes to one minus it; (b) the defining sum over the 64-bit field is injective on all functions of <= 4 variables for the shipped seed (counted only, not demanded, for the 32-bit field); (c) operation histories of the semantic SDD builder (all functions, all pairs and/or, unary ops, eq vs function equality) and CNF compilation with the semantic SDD and top-down builders; distinct = (representation, function, construction)",
@@ -365,6 +413,16 @@ pub fn run(ctx: &Ctx) -> Report {
                 break;
             }
         }
+        // (d) the same CNFs in long-lived semantic builders
+        let cnfs: Vec<Vec<Clause>> = chunk.iter().map(|s| s.iter().map(|&i| types[i].clone()).collect()).collect();
+        let mut compiles = 0u64;
+        for nv in 1..=3usize {
+            if let Some((k, w, c)) = semantic_history(&cnfs, nv, &mut compiles) {
+                r.violation(format!("hash:{}", k), format!("cnf {}: {}", cnf_json(&c), w), json!({"kind": "semantic_history", "cnfs": cnfs.iter().map(|c| cnf_json(c)).collect::<Vec<_>>(), "n": nv}));
+            }
+        }
+        r.transitions += compiles;
+        r.add_extra("part_d_compilations_in_long_lived_semantic_builders", compiles);
         r
     });
     rep.add_extra("part_c_cnfs_compiled_with_semantic_builders", cc.states);
@@ -393,6 +451,13 @@ pub fn replay(ctx: &Ctx, case: &Value) -> Report {
             };
             rep.merge(run_rep::<{ primes::U64_LARGEST }>(&r, n, 1, "U64_LARGEST"));
             rep.merge(run_rep::<{ primes::U32_SMALL }>(&r, n, 1, "U32_SMALL"));
+        }
+        Some("semantic_history") => {
+            let cnfs: Vec<Vec<Clause>> = case["cnfs"].as_array().map(|a| a.iter().map(cnf_from_json).collect()).unwrap_or_default();
+            let mut k = 0;
+            if let Some((key, w, _)) = semantic_history(&cnfs, case["n"].as_u64().unwrap_or(3) as usize, &mut k) {
+                rep.violation(format!("hash:{}", key), w, case.clone());
+            }
         }
         Some("semantic_compile") => {
             let c = cnf_from_json(&case["cnf"]);
